@@ -5,7 +5,7 @@
    the interruption points used by the correspondence, monotonicity of the static check in the protection, caught
    exceptions (try / except), and CPTensor.normalize(inplace=False) after fix 9ada0b3 (old rule as a labelled Example). *)
 From Coq Require Import List Arith ZArith Bool.
-From TLV Require Import Model.Effects Proofs.EffectsProofs Proofs.EffectsProofsSk Proofs.EffectsProofsGen Proofs.EffectsProofsPaths Proofs.EffectsProofsReach Proofs.EffectsProofsR5 Proofs.EffectsProofsMono Proofs.EffectsProofsTry Corr.C15.
+From TLV Require Import Model.Effects Proofs.EffectsProofs Proofs.EffectsProofsSk Proofs.EffectsProofsGen Proofs.EffectsProofsPaths Proofs.EffectsProofsReach Proofs.EffectsProofsR5 Proofs.EffectsProofsMono Proofs.EffectsProofsTry Model.EffectsR7 Proofs.EffectsProofsR7 Proofs.EffectsProofsR7Try Corr.C15.
 Import ListNotations.
 
 (* the frame theorem *)
@@ -558,3 +558,125 @@ Example C15_cp_mode_dot_copy_false_before_93a737c :
   footprint old_cp_mode_dot_nocopy [RObj 5 []; RObj 6 [0; 1]] cpmd_heap = [1; 4; 5] /\
   safe_with [true; false] old_cp_mode_dot_nocopy = true /\ footprint sk_cp_mode_dot_copy [RObj 5 []; RObj 6 [0; 1]] cpmd_heap = [].
 Proof. exact cp_mode_dot_nocopy_before_93a737c. Qed.
+
+(* ================================================================== round 7: two pieces of code whose safety rests on ONE copy each
+   (Model/EffectsR7.v, Proofs/EffectsProofsR7.v).
+   non_negative_tucker updates `nn_factors[mode] *= ..` and `nn_core *= ..` IN PLACE on what initialize_tucker(non_negative=True)
+   returns for a user initialisation: accepted for every order N, number of sweeps, update order, with / without normalisation,
+   because tl.abs allocates for every array (induction; invariant: a run-allocated list of writable entries + a writable core). *)
+Theorem C15_nn_tucker_any_order_safe :
+  (forall N sweeps normalize modes, safe 2 (sk_nn_tucker_gen N sweeps normalize modes) = true) /\
+  (forall N, safe 2 (sk_initialize_tucker_nn_gen N) = true).
+Proof. exact (conj nn_tucker_gen_safe initialize_tucker_nn_gen_safe). Qed.
+Print Assumptions C15_nn_tucker_any_order_safe.
+
+Theorem C15_nn_tucker_any_order_frame : forall N sweeps normalize modes (args : list ref) (h0 : heap) (n o : nat),
+  length args = 2 -> o < length h0 ->
+  nth_error (snd (fst (run (sk_nn_tucker_gen N sweeps normalize modes) n (env0 args, h0)))) o = nth_error h0 o.
+Proof. exact nn_tucker_gen_frame. Qed.
+Print Assumptions C15_nn_tucker_any_order_frame.
+
+(* the seeded-defect FAMILY "tl.abs only of the arrays that contain a negative entry" (byref = the factors passed through by
+   reference, coreref = the core is): it IS the code when every array has a negative entry (so a mixed-sign generator cannot
+   see it), and a by-reference core is rejected for every order / update order / factor pattern once one sweep runs *)
+Theorem C15_nn_tucker_abs_by_reference_family :
+  (forall N sweeps normalize modes, mut_nn_tucker N sweeps normalize modes [] false = sk_nn_tucker_gen N sweeps normalize modes) /\
+  (forall N sweeps modes byref, safe 2 (mut_nn_tucker N (S sweeps) false modes byref true) = false).
+Proof. exact (conj mut_nn_tucker_hidden_by_mixed_signs mut_nn_tucker_core_by_reference_rejected). Qed.
+Print Assumptions C15_nn_tucker_abs_by_reference_family.
+
+(* order 3: all 15 non-empty by-reference patterns are rejected after one sweep, all are invisible with normalize_factors=True,
+   a factor that is never updated hides its pattern; on a concrete heap the mutants change exactly the by-reference arrays *)
+Example C15_nn_tucker_abs_by_reference_order3 :
+  forallb (fun p => negb (safe 2 (mut_nn_tucker 3 1 false [0; 1; 2] (fst p) (snd p)))) r7_patterns = true /\
+  forallb (fun p => safe 2 (mut_nn_tucker 3 2 true [0; 1; 2] (fst p) (snd p))) r7_patterns = true /\
+  (safe 2 (mut_nn_tucker 3 1 false [0; 2] [1] false) = true /\ safe 2 (mut_nn_tucker 3 0 false [0; 1; 2] [0; 1; 2] true) = true) /\
+  (footprint (mut_nn_tucker 3 1 false [0; 1; 2] [1] false) r7_tucker_args r7_heap = [3] /\
+   footprint (mut_nn_tucker 3 1 false [0; 1; 2] [0; 1; 2] true) r7_tucker_args r7_heap = [1; 2; 3; 4] /\
+   footprint (sk_nn_tucker_gen 3 2 false [0; 1; 2]) r7_tucker_args r7_heap = [] /\
+   footprint (sk_nn_tucker_gen 3 2 true [0; 1; 2]) r7_tucker_args r7_heap = []).
+Proof.
+  exact (conj mut_nn_tucker_order3_rejected (conj mut_nn_tucker_order3_hidden_by_normalisation
+        (conj mut_nn_tucker_order3_hidden_without_update mut_nn_tucker_changes_arguments))).
+Qed.
+
+(* monotonicity_prox (either direction) and unimodality_prox, 1-D or 2-D input, every number of rows and columns: index_update
+   writes only into the copy taken BEFORE the flip (np.flip is a view) and before nothing else than the reshape of a vector *)
+Theorem C15_monotonicity_unimodality_prox_safe :
+  (forall dec vec rows cols, safe 1 (sk_monotonicity_prox dec vec rows cols) = true) /\
+  (forall vec rows cols, safe 1 (sk_unimodality_prox vec rows cols) = true).
+Proof. exact (conj monotonicity_prox_safe unimodality_prox_safe). Qed.
+Print Assumptions C15_monotonicity_unimodality_prox_safe.
+
+Theorem C15_monotonicity_unimodality_prox_frame :
+  (forall dec vec rows cols (args : list ref) (h0 : heap) (n o : nat), length args = 1 -> o < length h0 ->
+     nth_error (snd (fst (run (sk_monotonicity_prox dec vec rows cols) n (env0 args, h0)))) o = nth_error h0 o) /\
+  (forall vec rows cols (args : list ref) (h0 : heap) (n o : nat), length args = 1 -> o < length h0 ->
+     nth_error (snd (fst (run (sk_unimodality_prox vec rows cols) n (env0 args, h0)))) o = nth_error h0 o).
+Proof. exact (conj monotonicity_prox_frame unimodality_prox_frame). Qed.
+Print Assumptions C15_monotonicity_unimodality_prox_frame.
+
+(* the seeded-defect family "a VIEW instead of a copy": rejected for every shape with at least one column exactly under the
+   option / input kind that selects the view, and definitionally the code otherwise (what a generator must include:
+   decreasing=True; a 1-D input; a single-column input) *)
+Theorem C15_prox_view_instead_of_copy_family :
+  (forall vec rows cols, safe 1 (mut_monotonicity_prox_flip true vec rows (S cols)) = false) /\
+  (forall vec rows cols, mut_monotonicity_prox_flip false vec rows cols = sk_monotonicity_prox false vec rows cols) /\
+  (forall dec rows cols, safe 1 (mut_monotonicity_prox_vec dec true rows (S cols)) = false) /\
+  (forall dec rows cols, mut_monotonicity_prox_vec dec false rows cols = sk_monotonicity_prox dec false rows cols) /\
+  (forall vec rows cols, safe 1 (mut_unimodality_prox vec rows (S cols)) = false) /\
+  (forall vec rows, safe 1 (mut_unimodality_prox_single_column vec rows 1) = false) /\
+  (forall vec rows cols, cols <> 1 -> mut_unimodality_prox_single_column vec rows cols = sk_unimodality_prox vec rows cols).
+Proof.
+  exact (conj mut_monotonicity_prox_flip_rejected (conj mut_monotonicity_prox_flip_hidden (conj mut_monotonicity_prox_vec_rejected
+        (conj mut_monotonicity_prox_vec_hidden (conj mut_unimodality_prox_rejected
+        (conj mut_unimodality_prox_single_column_rejected mut_unimodality_prox_single_column_hidden)))))).
+Qed.
+Print Assumptions C15_prox_view_instead_of_copy_family.
+
+Example C15_prox_view_mutants_change_arguments :
+  footprint (mut_monotonicity_prox_flip true false 2 2) [RObj 7 [0; 1; 2; 3]] r7_heap = [7] /\
+  footprint (mut_monotonicity_prox_vec false true 3 1) [RObj 8 [0; 1; 2]] r7_heap = [8] /\
+  footprint (mut_unimodality_prox false 2 2) [RObj 7 [0; 1; 2; 3]] r7_heap = [7] /\
+  footprint (mut_unimodality_prox_single_column true 3 1) [RObj 8 [0; 1; 2]] r7_heap = [8] /\
+  footprint (sk_monotonicity_prox true false 2 2) [RObj 7 [0; 1; 2; 3]] r7_heap = [] /\
+  footprint (sk_monotonicity_prox true true 3 1) [RObj 8 [0; 1; 2]] r7_heap = [] /\
+  footprint (sk_unimodality_prox true 3 1) [RObj 8 [0; 1; 2]] r7_heap = [].
+Proof. exact mut_prox_changes_arguments. Qed.
+
+(* ------------------------------------------------------------------ round 7: try statements inside CALLEES and loops (Model.EffectsR7.xcmd:
+   plain commands, try statements, sequencing, bounded loops, calls whose body is an xcmd).  Whatever positions the try bodies
+   raise at - ANY oracle, consumed in execution order across calls and loop iterations - a program accepted by `xsafe` leaves the
+   caller's heap untouched.  tcmd (C15_frame_tcmd) is the call-free fragment. *)
+Theorem C15_frame_xcmd : forall (t : xcmd) (args : list ref) (h0 : heap),
+  xsafe (length args) t = true ->
+  forall ns o, o < length h0 -> nth_error (snd (fst (xexec t ns (env0 args, h0)))) o = nth_error h0 o.
+Proof. exact frame_xcmd. Qed.
+Print Assumptions C15_frame_xcmd.
+
+Theorem C15_xcmd_extends_tcmd :
+  (forall t ns s, xexec (xc_of_tcmd t) ns s = texec t ns s) /\ (forall t l, xstates (xc_of_tcmd t) l = tstates t l).
+Proof. exact (conj xc_of_tcmd_exec xc_of_tcmd_states). Qed.
+
+(* non_negative_tucker_hals(algorithm="active_set") with a user init: the core is updated through the callee active_set_nnls, which
+   catches the failure of its solve in each of its sweeps (order 3, two outer sweeps, decided by vm_compute) *)
+Theorem C15_nn_tucker_hals_active_set_frame :
+  xsafe 4 xc_nn_tucker_hals_active_set = true /\
+  forall (args : list ref) (h0 : heap) (ns : list nat) (o : nat), length args = 4 -> o < length h0 ->
+    nth_error (snd (fst (xexec xc_nn_tucker_hals_active_set ns (env0 args, h0)))) o = nth_error h0 o.
+Proof. exact (conj (proj1 nn_tucker_hals_active_set_xsafe) nn_tucker_hals_active_set_frame). Qed.
+Print Assumptions C15_nn_tucker_hals_active_set_frame.
+
+(* two cooperating seeded defects in two functions: a callee handler that resets the warm start in place is harmless while the warm
+   start is the run's own core, a by-reference core is harmless while nothing writes through it (the HALS variant copies before
+   hals_nnls); together they are rejected, and when the callee's first solve raises the handler zeroes the caller's core *)
+Example C15_try_in_callee_cooperating_defects :
+  (xsafe 4 xc_nn_tucker_hals_active_set = true /\
+   xsafe 4 (xc_nn_tucker_hals_as (sk_initialize_tucker_nn_gen 3) xc_active_set_nnls_mut) = true /\
+   xsafe 4 (xc_nn_tucker_hals_as (mut_initialize_tucker_nn 3 [] true) xc_active_set_nnls) = true /\
+   xsafe 4 (xc_nn_tucker_hals_as (mut_initialize_tucker_nn 3 [] true) xc_active_set_nnls_mut) = false) /\
+  (nth_error (snd (fst (xexec (xc_nn_tucker_hals_as (mut_initialize_tucker_nn 3 [] true) xc_active_set_nnls_mut) [0] (env0 r7_hals_args, r7_heap)))) 1
+     = Some (OBuf [0; 0; 1; 1]%Z) /\
+   firstn 9 (snd (fst (xexec (xc_nn_tucker_hals_as (mut_initialize_tucker_nn 3 [] true) xc_active_set_nnls_mut) [] (env0 r7_hals_args, r7_heap)))) = r7_heap /\
+   firstn 9 (snd (fst (xexec xc_nn_tucker_hals_active_set [0; 1; 0; 2] (env0 r7_hals_args, r7_heap)))) = r7_heap).
+Proof. exact (conj nn_tucker_hals_active_set_xsafe nn_tucker_hals_active_set_demo). Qed.
